@@ -458,6 +458,8 @@ theorem normKind_ok {T : List Desc} {g : Shape → JV → Bool} {f : Shape → J
       cases ht : d.template with
       | alias => simp only [ht] at h ⊢; exact hgf.ok _ _ hv h
       | ref => simp [ht] at h
+      | namedMap => simp [ht] at h
+      | special => simp [ht] at h
       | maplike => simp [ht] at h
       | struct =>
         simp only [ht, Bool.and_eq_true, List.all_eq_true] at h ⊢
